@@ -25,6 +25,15 @@ func (t *instM) String() string {
 	return fmt.Sprintf("pre=%d post=%d aux=%d catch=%d atom=%d/%d tail=0 g=%d closed=%v size=%d", t.Pre, t.Post, t.Aux, t.Catch, t.Atom, t.AtomR, t.G, t.Closed, PageSize)
 }
 
+// obs is String with the memory part left out for a closed instance of a world with a custom allocator (the buffer
+// has been handed back to the allocator).
+func (t *instM) obs(alloc bool) string {
+	if alloc && t.Closed {
+		return fmt.Sprintf("mem=released g=%d closed=true", t.G)
+	}
+	return t.String()
+}
+
 func (t *instM) close(code uint32) {
 	if !t.Closed { // only the first close counts
 		t.Closed, t.Code = true, code
@@ -40,6 +49,107 @@ type modelW struct {
 	raisedID bool
 	X        [nXMem]instM // module X per memory shape (only G and closed(code) are used)
 	XIn      [nXMem]bool  // instantiated
+	QIn      bool         // q, the owner of the memory that ximp imports, exists
+	QCell    uint32       // cell 0 of q's memory
+	alloc    bool         // the world has a custom memory allocator (allocModes)
+	L        [nLFam]lfamM
+}
+
+// lfamM: one linked family. The memory cells, the table and the global belong to the owner but are state of the
+// family: every instance reads and writes them, whichever instances have ended.
+type lfamM struct {
+	Inst           [3]instM // only Closed / Code are used
+	In             [3]bool
+	Pre, Post, Tab uint32
+	GL             uint32
+	Grown          bool // the unshared memory has been grown to its maximum of 2 pages
+}
+
+func (w *modelW) observeL() string {
+	var p [nLFam]string
+	for f := range w.L {
+		p[f] = "-"
+		fm := &w.L[f]
+		if !fm.In[0] {
+			continue
+		}
+		st, anyOpen := "", false
+		for r := range fm.Inst {
+			switch {
+			case !fm.In[r]:
+				st += lRoleNames[r] + "=- "
+			case fm.Inst[r].Closed:
+				st += lRoleNames[r] + "=closed "
+			default:
+				st += lRoleNames[r] + "=open "
+				anyOpen = true
+			}
+		}
+		if w.alloc && fm.Inst[0].Closed {
+			p[f] = fmt.Sprintf("%smem=released gl=%d", st, fm.GL)
+			continue
+		}
+		peek := "-"
+		if anyOpen {
+			peek = fmt.Sprint(fm.Pre)
+		}
+		size := PageSize
+		if fm.Grown {
+			size = 2 * PageSize
+		}
+		p[f] = fmt.Sprintf("%spre=%d post=%d tab=%d size=%d views=same gl=%d peek=%s", st, fm.Pre, fm.Post, fm.Tab, size, fm.GL, peek)
+	}
+	return strings.Join(p[:], " | ")
+}
+
+// lnk mirrors a letter of a linked family: exactly the instance whose code executed the exit / was closed ends;
+// the memory, table and global stay what they are for every other instance of the family.
+func (w *modelW) lnk(fam, role, kind int, k uint32) (string, uint32) {
+	fm := &w.L[fam]
+	fm.In[0] = true // the harness instantiates the owner as soon as the family is used
+	if !fm.In[role] {
+		if fm.Inst[0].Closed {
+			return "import-missing", 0 // a closed owner is not in the registry any more
+		}
+		fm.In[role] = true
+	}
+	me := &fm.Inst[role]
+	if kind == KLnkClose {
+		me.close(0)
+		return "ok", 0
+	}
+	then := lnkThens[kind-KLnk0]
+	ret, class := w.call(me, func() uint32 {
+		fm.Pre = k
+		fm.GL++
+		fm.Tab = 7
+		if kind-KLnk0 >= lnkGrows && fam == lUnshared {
+			fm.Grown = true // 1 -> 2 pages; at the maximum memory.grow returns -1 and changes nothing
+		}
+		switch then {
+		case KProcExit0, KProcExit3:
+			code := uint32(0)
+			if then == KProcExit3 {
+				code = 3
+			}
+			me.close(code)
+			panic(mfail{fmt.Sprintf("exit:%d", code)})
+		case KClose0:
+			me.close(0)
+		case KClose7:
+			me.close(7)
+		case KPanicError:
+			panic(mfail{"panic:error"})
+		case KUnreachable:
+			panic(mfail{"trap:unreachable"})
+		}
+		fm.Post = k
+		return fm.GL
+	})
+	if class != "ok" {
+		ret = 0
+	}
+	return class, ret
 }
 
 func (w *modelW) observeX() string {
@@ -50,7 +160,11 @@ func (w *modelW) observeX() string {
 			p[i] = fmt.Sprintf("g=%d,closed=%v", w.X[i].G, w.X[i].Closed)
 		}
 	}
-	return strings.Join(p[:], " ")
+	out := strings.Join(p[:], " ")
+	if w.QIn {
+		out += fmt.Sprintf(" q=%d qclosed=false", w.QCell)
+	}
+	return out
 }
 
 // plain mirrors grow0 / hostnop: own effects around an instruction that changes nothing.
@@ -64,6 +178,9 @@ func (w *modelW) plain(t *instM, k uint32) {
 // seq mirrors seq_i(k) of module X: exactly the instance whose code executes the exit is closed.
 func (w *modelW) seq(ms int, kind int, k uint32) (string, uint32) {
 	if !w.XIn[ms] {
+		if ms == xImported {
+			w.QIn = true // the harness instantiates q before X
+		}
 		if w.A.Closed || w.B.Closed {
 			return "import-missing", 0 // X imports functions of both; a closed instance is not in the registry
 		}
@@ -73,6 +190,9 @@ func (w *modelW) seq(ms int, kind int, k uint32) (string, uint32) {
 	first, then := seqParts(kind)
 	ret, class := w.call(x, func() uint32 {
 		x.G++
+		if ms == xImported {
+			w.QCell = k // X stores k to cell 0 of the memory it has: here q's
+		}
 		switch first {
 		case seqAHostNop, seqAGrow:
 			w.plain(&w.A, k)
@@ -297,6 +417,8 @@ func (w *modelW) step(l letter, k uint32) (string, uint32) {
 		return w.namedStart(l, k)
 	case ShXOwn, ShXNone, ShXShared, ShXImported:
 		return w.seq(l.Shape-ShXOwn, l.Kind, k)
+	case ShLuO, ShLuI1, ShLuI2, ShLsO, ShLsI1, ShLsI2:
+		return w.lnk((l.Shape-ShLuO)/3, (l.Shape-ShLuO)%3, l.Kind, k)
 	case ShLookup:
 		if !w.NReg {
 			return "no-module", 0
